@@ -1,11 +1,12 @@
 #!/bin/bash
 # usage: tools/try_seed.sh <seed name> <Cxx> [check args, e.g. --only substr]   (VERIF_TIER=quick|thorough)
-# Applies seeded/<seed>/patch.diff to a scratch worktree of /repo HEAD under /tmp, runs ./check <Cxx> against it (VERIF_REPO),
+# Applies seeded/<seed>/patch.diff (or benign/<name>/patch.diff) to a scratch worktree of /repo HEAD under /tmp, runs ./check <Cxx> against it (VERIF_REPO),
 # removes the worktree.  /repo itself is never touched.
 S="$1"; C="$2"; shift 2
 WT=/tmp/try_${S}_$$
 git -C /repo worktree add -q --detach "$WT" HEAD || exit 9
 trap 'git -C /repo worktree remove --force "$WT" 2>/dev/null' EXIT
-git -C "$WT" apply "/verif/seeded/$S/patch.diff" || { echo "patch does not apply"; exit 9; }
+P="/verif/seeded/$S/patch.diff"; [ -f "$P" ] || P="/verif/benign/$S/patch.diff"
+git -C "$WT" apply "$P" || { echo "patch does not apply"; exit 9; }
 cd /verif && VERIF_VERBOSE=${VERIF_VERBOSE:-} VERIF_REPO="$WT" VERIF_EVIDENCE_DIR="$WT/.verif_evidence" ./check "$C" --tier "${VERIF_TIER:-quick}" "$@" 2>&1 | grep -vE "^\s*$" | cut -c1-600
 echo "  -> $C exit=${PIPESTATUS[0]}"
